@@ -1,5 +1,6 @@
 """C03 - Bash target preserves slice and string operation semantics."""
 import corpus
+import comprun
 import progflow
 
 RULE = ("direction A: TLC enumerates spec/FamC03.tla: strings of distinct characters of every length 0..7 (thorough 0..12) with ALL "
@@ -19,5 +20,6 @@ def run(ctx):
     n = 150 if ctx.tier == "quick" else 2500
     failures += progflow.judge(ctx, progflow.generate(ctx, "slices", n), "gen")
     failures += corpus.judge(ctx, "C03")
+    failures += comprun.judge(ctx, True)
     progflow.report(ctx, failures)
     return ctx.finish(rule=RULE, assumptions=ASSUME)
